@@ -291,8 +291,17 @@ def truth(refseq, hvars, alleles, cols, spans, read):
 
 class C06Scenario:
     def __init__(self, rng, *, stream, n_reads, alphabet=BASES, contig_len=(500, 900), kinds=("snv", "mnp", "ins", "del"),
-                 allow_shiftable=False, decorations=True, paired=0.0, end_on_variant=0.15):
+                 allow_shiftable=False, decorations=True, paired=0.0, end_on_variant=0.15,
+                 n_files=1, reuse_names=False, same_molecule=0.0, supplementary=0.0):
+        """n_files > 1: the templates are distributed over that many alignment files (`src` of a read = index of its file);
+        reuse_names: every file numbers its templates from 1 ("r1", "r2", ... as sequencing runs / simulators / SRA dumps do), so
+        one name denotes unrelated molecules (random haplotype, random place) in different files; same_molecule: probability that a
+        template is ALSO written to a second file under the same name (the same library aligned twice: two reads, equal content);
+        supplementary: probability that a single-end template gets a supplementary alignment (flag 0x800; another stretch of the
+        same haplotype, same or - rarely - opposite strand) next to its primary one IN THE SAME FILE.
+        A read (= template) is identified by (src, name) everywhere."""
         self.stream = stream
+        self.n_files = n_files
         L = rng.randrange(*contig_len)
         self.ref = sim.random_seq(rng, L, alphabet)
         if stream == "isolated":
@@ -331,41 +340,74 @@ class C06Scenario:
         self.cols = [columns(self.ref, self.hvars, al) for al in self.haps]
         self.reads = []
         rid = 0
+        per_file = [0] * n_files
+        multi = n_files > 1 or reuse_names or same_molecule > 0 or supplementary > 0     # (old streams: no extra PRNG draws)
         for _ in range(n_reads):
             h = rng.randrange(2)
             cols, spans = self.cols[h]
             rid += 1
             name = f"r{rid}_h{h}"
-            if rng.random() < paired:
-                # two mates of one template, FR or FF orientation, possibly overlapping
-                l1, l2 = rng.randrange(30, 120), rng.randrange(30, 120)
-                s1 = rng.randrange(0, max(1, len(cols) - l1 - l2 - 60))
-                s2 = s1 + rng.randrange(max(1, l1 - 20), l1 + 60)
-                orient = rng.choice(["FR", "FR", "FF", "RR", "RF"])
-                for mate, (s, l) in enumerate([(s1, l1), (s2, l2)]):
-                    r = self._one(rng, h, s, min(len(cols), s + l), decorations)
-                    if r is None:
-                        continue
-                    rev = {"FR": (False, True), "FF": (False, False), "RR": (True, True), "RF": (True, False)}[orient][mate]
-                    r.update(name=name, flag=1 | 2 | (64 if mate == 0 else 128) | (16 if rev else 0), paired=orient, mate=mate)
-                    self.reads.append(r)
-                continue
-            l = rng.randrange(25, 220)
-            s = rng.randrange(0, max(1, len(cols) - l))
-            e = min(len(cols), s + l)
-            if self.listed_idx and rng.random() < end_on_variant:
-                # reads that start/end on or just next to a variant (first/last aligned base)
-                i = rng.choice(self.listed_idx)
-                c0, c1 = spans[i]
-                if rng.random() < 0.5:
-                    e = min(len(cols), rng.choice([c0, c0 + 1, c1 - 1, c1, c1 + 1, c1 + 2])); s = max(0, e - l)
-                else:
-                    s = max(0, rng.choice([c0 - 2, c0 - 1, c0, c0 + 1, c1 - 1, c1])); e = min(len(cols), s + l)
-            r = self._one(rng, h, s, e, decorations)
-            if r is None:
-                continue
-            r.update(name=name, flag=0, paired=None, mate=0)
-            self.reads.append(r)
+            src, first = 0, len(self.reads)
+            if multi:
+                src = rng.randrange(n_files)
+                per_file[src] += 1
+                if n_files > 1 and rng.random() < same_molecule:
+                    name = f"dup{rid}"            # unique in every file; written to two files below
+                elif reuse_names:
+                    name = f"r{per_file[src]}"    # unique within its file, shared with unrelated molecules of the other files
+            self._template(rng, h, name, src, paired, decorations, end_on_variant, supplementary)
+            if name.startswith("dup"):
+                other = rng.choice([f for f in range(n_files) if f != src])
+                for r in list(self.reads[first:]):
+                    self.reads.append(dict(r, src=other))
+
+    def _template(self, rng, h, name, src, paired, decorations, end_on_variant, supplementary):
+        cols, spans = self.cols[h]
+        if rng.random() < paired:
+            # two mates of one template, FR or FF orientation, possibly overlapping
+            l1, l2 = rng.randrange(30, 120), rng.randrange(30, 120)
+            s1 = rng.randrange(0, max(1, len(cols) - l1 - l2 - 60))
+            s2 = s1 + rng.randrange(max(1, l1 - 20), l1 + 60)
+            orient = rng.choice(["FR", "FR", "FF", "RR", "RF"])
+            for mate, (s, l) in enumerate([(s1, l1), (s2, l2)]):
+                r = self._one(rng, h, s, min(len(cols), s + l), decorations)
+                if r is None:
+                    continue
+                rev = {"FR": (False, True), "FF": (False, False), "RR": (True, True), "RF": (True, False)}[orient][mate]
+                r.update(name=name, flag=1 | 2 | (64 if mate == 0 else 128) | (16 if rev else 0), paired=orient, mate=mate,
+                         src=src, supp=False)
+                self.reads.append(r)
+            return
+        l = rng.randrange(25, 220)
+        s = rng.randrange(0, max(1, len(cols) - l))
+        e = min(len(cols), s + l)
+        if self.listed_idx and rng.random() < end_on_variant:
+            # reads that start/end on or just next to a variant (first/last aligned base)
+            i = rng.choice(self.listed_idx)
+            c0, c1 = spans[i]
+            if rng.random() < 0.5:
+                e = min(len(cols), rng.choice([c0, c0 + 1, c1 - 1, c1, c1 + 1, c1 + 2])); s = max(0, e - l)
+            else:
+                s = max(0, rng.choice([c0 - 2, c0 - 1, c0, c0 + 1, c1 - 1, c1])); e = min(len(cols), s + l)
+        r = self._one(rng, h, s, e, decorations)
+        if r is None:
+            return
+        r.update(name=name, flag=0, paired=None, mate=0, src=src, supp=False)
+        self.reads.append(r)
+        if supplementary > 0 and rng.random() < supplementary:
+            # split read: primary + supplementary alignment of ONE template (same name, same file, same haplotype)
+            rev = rng.random() < 0.5
+            r["flag"] = 16 if rev else 0
+            l2 = rng.randrange(25, 160)
+            if rng.random() < 0.5:      # the neighbouring stretch of the molecule (as after a large deletion / inversion) ...
+                s2 = min(max(0, e + rng.randrange(-15, 40)), max(0, len(cols) - l2))
+            else:                       # ... or anywhere
+                s2 = rng.randrange(0, max(1, len(cols) - l2))
+            r2 = self._one(rng, h, s2, min(len(cols), s2 + l2), decorations)
+            if r2 is not None:
+                rev2 = rev if rng.random() < 0.8 else not rev
+                r2.update(name=name, flag=2048 | (16 if rev2 else 0), paired=None, mate=0, src=src, supp=True)
+                self.reads.append(r2)
 
     def _one(self, rng, h, s, e, decorations):
         cols, spans = self.cols[h]
@@ -399,9 +441,10 @@ class C06Scenario:
     # -- serialisation (replay never depends on the PRNG)
     def to_case(self):
         return {"stream": self.stream, "ref": self.ref, "hvars": [v.as_list() for v in self.hvars],
-                "haps": self.haps,
+                "haps": self.haps, "n_files": self.n_files,
                 "reads": [{k: (r[k] if k != "truth" else {str(i): t for i, t in r[k].items()}) for k in
-                           ("name", "flag", "start", "cigar", "seq", "hap", "truth", "paired", "mate")} for r in self.reads]}
+                           ("name", "flag", "start", "cigar", "seq", "hap", "truth", "paired", "mate", "src", "supp")}
+                          for r in self.reads]}
 
 
 def case_reads(case):
@@ -411,6 +454,8 @@ def case_reads(case):
         r = dict(r)
         r["cigar"] = [tuple(x) for x in r["cigar"]]
         r["truth"] = {int(i): t for i, t in r["truth"].items()}
+        r.setdefault("src", 0)            # cases recorded before the multi-file streams
+        r.setdefault("supp", False)
         out.append(r)
     return out
 
